@@ -208,7 +208,7 @@ def run_cases(prop, bins, cases, timeout=120, tag='run'):
         # shard failed as a whole: isolate the culprit case by case
         vs, errs, nn = [], [], 0
         for i in part:
-            v1, n1, e1 = run_shard(prop, bins[b], [cases[i]], [str(i)], min(timeout, 30), workdir, f'{tag}-{b}-one')
+            v1, n1, e1 = run_shard(prop, bins[b], [cases[i]], [str(i)], max(120, timeout // 3), workdir, f'{tag}-{b}-one')
             if e1 is None:
                 vs += [(int(k), vv) for k, vv in v1.items()]
                 nn += n1
